@@ -38,7 +38,7 @@ w("D5", "u8 tree with capacity 255 overflowed the sequence on the last insertion
   "tree type=T8u8u8 slots=255 cap=255 keys=" + ",".join(str(k) for k in range(256)), ops)
 w("D6", "hash set contains divided by zero on an all-zero or capacity-zero set (fixed 91fcc3f)", ["C12", "C02"],
   "hset type=HU64 slots=3 cap=0 vals=0,1", ["rhas 1", "has 1", "iter", "rsize", "init 0", "rhas 1", "ins 1", "rem 1"])
-w("D7", "array set length prefix overflowed with more slots than the prefix can count (fixed 51e4ad4)", ["C12", "C03"],
+w("D7", "array set length prefix overflowed with more slots than the prefix can count (fixed 51e4ad4)", ["C12", "C03", "C09", "C04"],
   "aset type=A8u16 slots=300 vals=" + ",".join(str(k) for k in range(300)),
   [f"ins {k}" for k in range(258)] + ["rlen", "full", "rhas 255", "rhas 256", "take 0", "ins 256", "rlen"])
 w("D8", "prefix str copy_from_str split a multi-byte character (fixed 8a60168)", ["C11", "C13"],
